@@ -3,6 +3,11 @@
 //! + scripted `lib::std::io`), and `println!` / `eprintln!` are shadowed by module-local
 //! macros that append to the captured stdout / stderr of the current thread.
 
+/// is the tool hosted in this binary? (false: it did not compile in here - e.g. it now needs
+/// something a hosted module cannot have - and C20 judges the real executable only)
+pub const HOSTED: bool = cfg!(feature = "hosted_cli");
+
+#[cfg(feature = "hosted_cli")]
 #[allow(unused_macros, dead_code, unused_imports)]
 mod hosted {
     macro_rules! println {
@@ -34,7 +39,9 @@ mod hosted {
         }};
     }
 
-    include!(concat!(env!("VERIF_REPO"), "/src/bin/aisparser.rs"));
+    // src/bin/aisparser.rs of the repository, leading inner doc comments / attributes turned
+    // into plain comments by build.rs (they are not allowed in an include!d file)
+    include!(concat!(env!("OUT_DIR"), "/aisparser_hosted.rs"));
 
     pub fn run() {
         let _ = main();
@@ -59,7 +66,10 @@ pub fn run_cli(data: &[u8], steps: &[usize]) -> CliRun {
         .map(|&n| if n == 0 { Step::Eintr } else { Step::Chunk(n) })
         .collect();
     ais::sim_io::install(data.to_vec(), steps);
+    #[cfg(feature = "hosted_cli")]
     let r = crate::nodes::guard(hosted::run);
+    #[cfg(not(feature = "hosted_cli"))]
+    let r: Result<(), String> = Ok(());
     let s = ais::sim_io::take();
     CliRun {
         panicked: r.err(),
